@@ -72,6 +72,47 @@ def akai_payload2():
     return A.build_akai(A.model_from_spec({"parts": parts}))[0]
 
 
+def akai_payload3():
+    """names that are sanitised differently depending on their role (directory / file), names that need sanitising, and
+    the SAME raw name used for a volume in one partition and for a sample in another (and the other way round)"""
+    layout = [[("DRUMS", ["KICK-", "X.", "A+B", "SNARE"]), ("SNARE", ["DRUMS", "KICK-"])],
+              [("KICK-", ["SNARE", "X."]), ("X.", ["KICK-", "A+B", "DRUMS"])]]
+    parts = []
+    seq = 80
+    for vols_spec in layout:
+        vols = []
+        sec = 3
+        for vname, names in vols_spec:
+            d = sec
+            sec += 1
+            files = []
+            for nm in names:
+                seq += 1
+                files.append({"name": nm, "n": 200 + seq, "chain": [sec], "seq": seq})
+                sec += 1
+            vols.append({"name": vname, "dir": [d], "files": files})
+        parts.append({"vols": vols})
+    return A.build_akai(A.model_from_spec({"parts": parts}))[0]
+
+
+def discover_paths(fmt, depth=3):
+    """every path reachable through the listings of a fresh object (breadth first), plus three invalid ones"""
+    from mcv.checks.c10 import parse_table
+    out = [""]
+    frontier = [""]
+    for _ in range(depth):
+        nxt = []
+        for p in frontier:
+            names = parse_table(tree.ls(tree.open_image(payload(fmt)), p)) or []
+            for n in names:
+                q = n if p == "" else p + "/" + n
+                if n.strip() and q not in out:
+                    out.append(q)
+                    nxt.append(q)
+        frontier = nxt
+    return out + ["nope", out[1] + "/nope" if len(out) > 1 else "x/nope"]
+
+
 def akai_paths():
     out = ["", "A:", "B:"]
     for p in "AB":
@@ -120,7 +161,7 @@ _PAY = {}
 
 def payload(fmt):
     if fmt not in _PAY:
-        _PAY[fmt] = {"akai": akai_payload, "roland": roland_payload, "akai2": akai_payload2}[fmt]()
+        _PAY[fmt] = {"akai": akai_payload, "roland": roland_payload, "akai2": akai_payload2, "akai3": akai_payload3}[fmt]()
     return _PAY[fmt]
 
 
@@ -142,6 +183,9 @@ def _baseline_main(fmt):
     out = {}
     with scratch_dir("c16b") as d:
         subj = Subject(fmt, d)
+        if fmt == "akai3":
+            subj.paths = discover_paths(fmt)
+            out["__paths__"] = subj.paths
         ops = subj.ops()
         for op in [o for o in ops if o[0] != "ls"] + [o for o in ops if o[0] == "ls"]:
             st, val = guarded(lambda: run_history(subj, [op]), 120.0)
@@ -150,8 +194,9 @@ def _baseline_main(fmt):
 
 
 class Subject:
-    def __init__(self, fmt, scratch):
+    def __init__(self, fmt, scratch, paths=None):
         self.fmt, self.scratch = fmt, scratch
+        self.paths = paths
         self.n = 0
         if fmt == "cdda":
             self.path = cdda_open(scratch)
@@ -163,18 +208,21 @@ class Subject:
 
     def ops(self):
         base = self.fmt.replace("_file", "").replace("akai2", "akai")
-        paths = {"akai": akai_paths, "roland": roland_paths, "cdda": cdda_paths}[base]()
+        if self.paths is not None:
+            paths = self.paths
+        else:
+            paths = {"akai": akai_paths, "roland": roland_paths, "cdda": cdda_paths}[base]()
         return [["ls", p] for p in paths] + [["export"], ["export_same"]]
 
     def fresh(self):
-        if self.fmt in ("akai", "roland", "akai2"):
+        if self.fmt in ("akai", "roland", "akai2", "akai3"):
             self.bio = io.BytesIO(payload(self.fmt))
             from smpl_extract.actions import determine_image_type
             return determine_image_type(self.bio)
         return tree.open_image(self.path)
 
     def unchanged(self):
-        if self.fmt in ("akai", "roland", "akai2"):
+        if self.fmt in ("akai", "roland", "akai2", "akai3"):
             return self.bio.getvalue() == payload(self.fmt)
         if self.fmt == "cdda":
             with open(os.path.join(self.scratch, "disc.bin"), "rb") as f:
@@ -213,7 +261,9 @@ class Check(CheckBase):
     title = "Results depend only on the image bytes, not on what was looked at before"
     rule = ("per image (AKAI: 2 partitions x 2 volumes, L/R pair, fragmented chains, a program, a file filling its last "
             "sector; Roland: 2 volumes + orphan performance, shared sample, reverse mode, L/R pair; CDDA: duplicate and missing "
-            "titles; AKAI and Roland again as read-only real files) the alphabet is ls(p) for every node path p, three invalid "
+            "titles; AKAI and Roland again as read-only real files; a third AKAI image whose names are sanitised differently by role "
+            "(ending in '-' / '.', '+') and where one raw name is a volume in one partition and a sample in another, paths "
+            "discovered through its own listings) the alphabet is ls(p) for every node path p, three invalid "
             "paths, export into a fresh directory, and export into one fixed directory (so that a repeated export writes over "
             "its own files); ALL histories of length <=2 (quick) / <=3 (thorough; Roland <=2 plus all length-3 histories "
             "ending in export) run on ONE image object; oracle: observable of the last operation (stdout; exported paths + "
@@ -226,16 +276,16 @@ class Check(CheckBase):
     def shards(self):
         out = []
         self._base = {}
-        for fmt in ("akai", "roland", "cdda", "akai2"):
+        for fmt in ("akai", "roland", "cdda", "akai2", "akai3"):
             self._base[fmt] = pristine_baseline(fmt)
         # cross-image histories: one operation on image A, then one on image B (same names, other bytes) in the same process
         with scratch_dir("c16s") as d:
             nops = len(Subject("akai", d).ops())
         for first in range(nops):
             out.append({"fmt": "akai_cross", "first": first, "baseline": self._base["akai2"]})
-        for fmt in ("akai", "roland", "cdda", "akai_file", "roland_file"):
+        for fmt in ("akai", "roland", "cdda", "akai_file", "roland_file", "akai3"):
             with scratch_dir("c16s") as d:
-                nops = len(Subject(fmt, d).ops())
+                nops = len(Subject(fmt, d, self._base.get(fmt, {}).get("__paths__")).ops())
             base = fmt.replace("_file", "")
             maxlen = 2 if self.quick else 3
             if fmt.endswith("_file") and not self.quick:
@@ -253,15 +303,15 @@ class Check(CheckBase):
         if "replay_case" in shard:
             c = shard["replay_case"]
             with scratch_dir("c16") as d:
-                subj = Subject(c["fmt"], d)
+                subj = Subject(c["fmt"], d, c.get("paths"))
                 self._one(subj, c["history"], rep, {})
             return
         if shard["fmt"] == "akai_cross":
             return self._cross(shard, rep)
         with scratch_dir("c16") as d:
-            subj = Subject(shard["fmt"], d)
+            subj = Subject(shard["fmt"], d, shard.get("baseline", {}).get("__paths__"))
             ops = subj.ops()
-            cache = {k: (v[0], tuple(v[1]) if v[0] == "ok" else v[1]) for k, v in shard.get("baseline", {}).items()}
+            cache = {k: (v[0], tuple(v[1]) if v[0] == "ok" else v[1]) for k, v in shard.get("baseline", {}).items() if k != "__paths__"}
             first = ops[shard["first"]]
             hists = [[first]]
             if shard["maxlen"] >= 2:
